@@ -14,6 +14,9 @@ def make_cases(tier, profile):
     cases.append(dict(name='LUSERS [default modes +O]', line='LUSERS', judges=['no_panic', 'lusers'], spec=dict(base, default_user_modes={'local_oper': True})))
     for l in ['ISON bob', 'ISON bob carol dave alice', 'ISON :bob carol', 'USERHOST bob', 'USERHOST bob dave alice carol']:
         cases.append(dict(name=l, line=l, judges=['no_panic', 'ison'], spec=base))
+    for l in ['USERHOST bob', 'USERHOST alice bob carol']:
+        cases.append(dict(name=l + ' [default modes +O, operators configured]', line=l, judges=['no_panic', 'ison'], spec=dict(base, operators=ops, default_user_modes={'local_oper': True})))
+        cases.append(dict(name=l + ' [operators configured]', line=l, judges=['no_panic', 'ison'], spec=dict(base, operators=ops)))
     # every mutator of the counters keeps them true (64-bit symbolic counters: overflow/underflow is a panic in the dev profile, a wrong number in release)
     for l in ['MODE alice +i', 'MODE alice -i', 'MODE alice +i-i+i', 'MODE alice +o', 'MODE alice -o', 'MODE alice +O', 'MODE alice -O', 'MODE alice -oO', 'MODE alice +w-i',
               'OPER opname goodpw', 'OPER opname badpw', 'NICK zed', 'JOIN #new', 'PART #x', 'KICK #x bob']:
